@@ -112,3 +112,29 @@ def streams(rep, tier, seed):
         "concrete_runs_per_program_with_a_claim": nruns,
     }
     rep.cov["evaluations"] += len(lines)
+
+
+def replay(path):
+    """re-run the program recorded in a replay file (line 'input: ...'): print the verdict lists and the oracle's answer"""
+    txt = open(path).read()
+    m = re.search(r"(?m)^input: (.*)$", txt)
+    if not m:
+        print("no recorded input in", path)
+        return 2
+    line = m.group(1).strip()
+    hexe, err = vlib.build_harness("inter")
+    if err:
+        print(err)
+        return 2
+    d = os.path.join(vlib.VERIF, "out", "C02")
+    os.makedirs(d, exist_ok=True)
+    cf = os.path.join(d, "inter-verdicts.replay.case")
+    open(cf, "w").write(line + "\n")
+    a = vlib.run_harness_resilient(hexe, (), cf, 1, 120).get(0, "MISSING")
+    print("input:          ", line)
+    print("implementation: ", a)
+    _, V = inter.split_verdicts(a)
+    print("verdict lists:  ", V)
+    w = inter.oracle_verdicts(line, a, nruns=2000)
+    print("oracle:         ", w if w else "no violation found")
+    return 1 if w else 0
